@@ -1065,6 +1065,29 @@ def oracle_C13(inp, meta=None):
             got = not validate(R, v).has_errors()
             if got != want:
                 return True, f"make_required({d!r}, {ks!r}) = {R!r}: value {v!r} accepted={got}, expected {want}"
+        # ... whatever was done with the same operand before: a second call with other keys, on the same object, must mean
+        # what it means on a freshly declared equal schema
+        import copy as _copy
+        keys_all = [k for k in d.keys() if k is not ...]
+        for first in ([], keys_all[:1], keys_all[-1:], keys_all):
+            d1 = eval(repr(d), {"schema": schema, "optional": optional}) if "<" not in repr(d) else None
+            if d1 is None:
+                break
+            try:
+                make_required(d1, first)
+            except DeclarationError:
+                continue
+            for second in ([], keys_all[-1:], keys_all[:1]):
+                fresh = eval(repr(d), {"schema": schema, "optional": optional})
+                try:
+                    R1, R2 = make_required(d1, second), make_required(fresh, second)
+                except DeclarationError:
+                    continue
+                for v in _probe_values([d, R2])[:40]:
+                    a_, b_ = not validate(R1, v).has_errors(), not validate(R2, v).has_errors()
+                    if a_ != b_:
+                        return True, (f"make_required(d, {second!r}) after make_required(d, {first!r}) on the same operand d = {d!r}: value "
+                                      f"{v!r} accepted={a_}, on a freshly declared d: {b_}")
         return False, "make_required means what it says"
     if "self" in inp and "other" in inp:
         a, b = build(inp["self"]), build(inp["other"])
@@ -1223,7 +1246,24 @@ def oracle_C06(inp, meta=None):
     return False, f"{text} round-trips"
 
 
-def _fake_in_subprocess(exprs, hashseed):
+NOISE = (
+    "def noise():\n"
+    "    # other public operations in the same process: generators / validators with their own configuration, used once\n"
+    "    from d42 import validate, substitute, fake as _f\n"
+    "    from d42.generation import Generator, RegexGenerator, Random as _R\n"
+    "    from d42.validation import Validator\n"
+    "    rg = RegexGenerator(_R(), alphabet={'digits': '01', 'word': 'xyz', 'letters': 'ab'}, max_repeat=4)\n"
+    "    g = Generator(_R(), rg)\n"
+    "    schema.str.regex(r'\\d\\w.').__accept__(g)\n"
+    "    schema.list(schema.int).__accept__(g)\n"
+    "    validate(schema.dict({'a': schema.int}), {'a': 'x'})\n"
+    "    substitute(schema.dict({'a': schema.int, 'b': schema.str}), {'a': 1})\n"
+    "    repr(schema.list([schema.int, ...]))\n"
+    "    _f(schema.str.regex('[^a]x'))\n"
+)
+
+
+def _fake_in_subprocess(exprs, hashseed, noise=False):
     """repr(fake(S)) for each DSL expression, after Random().set_seed(k), in a fresh interpreter"""
     import subprocess
     code = (
@@ -1238,8 +1278,10 @@ def _fake_in_subprocess(exprs, hashseed):
         "    DEV = 'dev'\n"
         "class Level(enum.IntEnum):\n"
         "    LOW = 3\n"
+        + (NOISE if noise else "def noise(): pass\n") +
         "out = []\n"
         "for k in (0, 42, 'seed', b'bytes', 2.5, True, 2**70, RunId('run-7'), Stage.DEV, Level.LOW, bytearray(b'ba')):\n"
+        "    noise()\n"
         "    Random().set_seed(k)\n"
         "    row = []\n"
         "    for e in %r:\n"
@@ -1259,6 +1301,7 @@ C17_ZOO = ["schema.int.min(0).max(10)", "schema.str.len(8)", "schema.str.alphabe
            "schema.str.alphabet('xxyyzz').len(6)", "schema.str.regex('[a-f]{3}-[0-9]+')", "schema.float.precision(2)",
            "schema.list(schema.bool).len(5)", "schema.dict({'a': schema.int, 'b': schema.str.contains('q')})",
            "schema.any(schema.int, schema.str, schema.none)", "schema.bytes",
+           "schema.str.regex(r'\\d{4}-\\w{3}.x')", "schema.list(schema.str.regex(r'id-\\w\\d'))",
            # schemas built through the combinators (key / alternative order must not depend on the hash seed)
            "schema.dict({'id': schema.int, 'name': schema.str.len(3)}) + schema.dict({'tag': schema.str.len(2), 'n': schema.int})",
            "schema.list(schema.dict({'a': schema.int}) + schema.dict({'b': schema.int, 'c': schema.int})).len(2)",
@@ -1297,6 +1340,14 @@ def oracle_C17(inp, meta=None):
     again = _fake_in_subprocess(exprs, 0)
     if again != base:
         return True, "outputs differ between two runs with the same hash seed"
+    noisy = _fake_in_subprocess(exprs, 0, noise=True)
+    if noisy != base:
+        for ra, rb in zip(base, noisy):
+            for e, a, b in zip(exprs, ra, rb):
+                if a != b:
+                    return True, (f"seeded fake({e}) depends on what ran before in the same process (a user-built "
+                                  f"RegexGenerator(alphabet=...) / Generator / validate / substitute / repr): {a} vs {b}")
+        return True, "outputs depend on unrelated earlier operations in the same process"
     return False, "seeded generation is reproducible for these schemas"
 
 
